@@ -91,6 +91,7 @@ fn main() {
     let mut start = 0u64;
     let mut only = None;
     let mut max_cases = None;
+    let mut stride = 1u64;
     let mut cursor = None;
     let mut viollog: Option<String> = None;
     let mut out: Option<String> = None;
@@ -118,6 +119,7 @@ fn main() {
             "--start" => start = v.parse().unwrap_or(0),
             "--only" => only = v.parse().ok(),
             "--max" => max_cases = v.parse().ok(),
+            "--stride" => stride = v.parse().unwrap_or(1),
             "--cursor" => cursor = std::fs::OpenOptions::new().write(true).create(true).truncate(true).open(&v).ok(),
             "--viollog" => viollog = Some(v.clone()),
             "--out" => out = Some(v.clone()),
@@ -137,6 +139,8 @@ fn main() {
         start,
         only,
         max_cases,
+        stride,
+        mine: 0,
         next_idx: 0,
         cur_idx: 0,
         cur_desc: String::new(),
